@@ -518,7 +518,7 @@ func init() {
 	fw.Register(&fw.Check{
 		ID:    "C05",
 		Level: "model_checking",
-		Rule: "layer arrangements: every assignment {absent,value,tombstone} of 2 keys x 3 layers and 3 keys x 2 layers (quick) / 3 keys x 3 layers = 19683 (thorough), built oldest layer first on the real engine in 7 stack shapes (one memtable; 2 immutables+active; SST+immutable+active; 2 SST+active; the same after reopen; 3 SSTs with the flushed log files retired; 2 SSTs log-retired + active); on each: full scan, Seek to 7 targets (keys, gaps, ends) followed by iteration, SeekToLast, every range [lo,hi) over those bounds with SeekToFirst/Seek/SeekToLast, prefix and suffix filters, the same inside a read-write transaction with 5 single-operation overlays and inside a read-only transaction. Oracle: sorted map model minus deleted keys, consumer skips IsTombstone entries. Non-trivial = arrangements with >=2 non-empty layers. Concurrent scans: a full scan over keys spread over an SSTable, an immutable and the active table against a writer of other keys, a transactional writer, an explicit flush, writer+flush and a compaction: all interleavings up to the deviation bound (2 for the writer scenarios, 1 for the maintenance scenarios; thorough +1); the scan must be strictly ascending, duplicate-free, contain every pre-existing untouched key with its value, no deleted key and nothing nobody wrote.",
+		Rule: "layer arrangements: every assignment {absent,value,tombstone} of 2 keys x 3 layers and 3 keys x 2 layers (quick) / 3 keys x 3 layers = 19683 (thorough), built oldest layer first on the real engine in 7 stack shapes (one memtable; 2 immutables+active; SST+immutable+active; 2 SST+active; the same after reopen; 3 SSTs with the flushed log files retired; 2 SSTs log-retired + active); on each: full scan, Seek to 7 targets (keys, gaps, ends) followed by iteration, SeekToLast, every range [lo,hi) over those bounds with SeekToFirst/Seek/SeekToLast, prefix and suffix filters, the same inside a read-write transaction with 5 single-operation overlays and inside a read-only transaction. Oracle: sorted map model minus deleted keys, consumer skips IsTombstone entries. Non-trivial = arrangements with >=2 non-empty layers. Concurrent scans: a full scan over keys spread over an SSTable, an immutable and the active table against a writer of other keys, a transactional writer, an explicit flush, writer+flush and a compaction, and a range scan whose start bound is a key the (transactional) writer inserts meanwhile: all interleavings up to the deviation bound (2 for the writer scenarios, 1 for the maintenance scenarios; thorough +1); the scan must be strictly ascending, duplicate-free, contain every pre-existing untouched key with its value, no deleted key and nothing nobody wrote.",
 		Assumptions: []string{"layer boundaries are forced through an export hook that calls the engine's own scheduleFlush", "log retirement is simulated by deleting every log file but the newest after all data was flushed"},
 		Units: func(tier string) []string {
 			var us []string
@@ -655,7 +655,7 @@ type c05ScanObs struct {
 }
 
 func c05Scenarios() []*explore.Scenario {
-	mk := func(name string, cfg string, others []string) *explore.Scenario {
+	mkLo := func(name string, cfg string, others []string, lo string) *explore.Scenario {
 		return &explore.Scenario{Name: name, MaxSteps: 3_000_000,
 			Body: func() any {
 				dir := filepath.Join(fw.ProcDir("c05s"), "db")
@@ -679,6 +679,10 @@ func c05Scenarios() []*explore.Scenario {
 				var ts []*vsched.Thread
 				ts = append(ts, vsched.GoNamed("SCAN", func() {
 					it, err := r.Eng.GetIterator()
+					if lo != "" {
+						// a range scan positions every layer with Seek(lo): lo is a key a writer inserts meanwhile
+						it, err = r.Eng.GetRangeIterator([]byte(lo), nil)
+					}
 					if err != nil {
 						obs.Err = "iterator: " + err.Error()
 						return
@@ -734,6 +738,12 @@ func c05Scenarios() []*explore.Scenario {
 					got[k] = ob.Vals[i]
 				}
 				for k, v := range map[string]string{"k2": "v2", "k4": "v4", "k6": "v6"} {
+					if k < lo {
+						if _, ok := got[k]; ok {
+							return key, fmt.Sprintf("concurrent-scan-out-of-bounds\nthe scan from %q shows %s (scan: %v)", lo, k, ob.Keys)
+						}
+						continue
+					}
 					if got[k] != v {
 						return key, fmt.Sprintf("concurrent-scan-missing\nkey %s existed before the scan started and is not written during it, the scan shows %q (scan: %v)", k, got[k], ob.Keys)
 					}
@@ -750,7 +760,10 @@ func c05Scenarios() []*explore.Scenario {
 				return key, ""
 			}}
 	}
+	mk := func(name string, cfg string, others []string) *explore.Scenario { return mkLo(name, cfg, others, "") }
 	return []*explore.Scenario{
+		mkLo("rangescan-vs-writer", "big", []string{"writer"}, "k5"),
+		mkLo("rangescan-vs-txwriter", "big", []string{"txwriter"}, "k1"),
 		mk("scan-vs-writer", "big", []string{"writer"}),
 		mk("scan-vs-flush", "big", []string{"flush"}),
 		mk("scan-vs-writer-flush", "big", []string{"writer", "flush"}),
@@ -767,7 +780,7 @@ func c05SchedUnits(tier string) []string {
 	var us []string
 	for _, sc := range c05Scenarios() {
 		bb, n := b-1, 4
-		if sc.Name == "scan-vs-writer" || sc.Name == "scan-vs-txwriter" {
+		if sc.Name == "scan-vs-writer" || sc.Name == "scan-vs-txwriter" || strings.HasPrefix(sc.Name, "rangescan-") {
 			bb = b
 		}
 		us = append(us, shardUnits(sc.Name, bb, n)...)
